@@ -123,3 +123,8 @@ META["C10"] = {
     "text": "A hostile fetcher plants links, special files and rule files; a build that succeeds must leave only sane package directories and must not touch anything outside the target; definitely illegal content must make the build fail.",
     "note": "Uses the same physical resolver as C04 and the same reference matcher as C03.",
 }
+META["C18"] = {
+    "technique": "rapid PBT over field-wise generated manifests and real bundles; containment and inverse-lookup oracles; native fuzzing of manifest bytes (thorough)",
+    "text": "Generated and mutated manifests are opened; every forward lookup must stay strictly inside the root and hostile directory names must be refused; path -> address -> path must be the identity for paths inside package directories and refused elsewhere.",
+    "note": "Containment is judged with filepath.Rel on cleaned absolute paths.",
+}
